@@ -1,24 +1,116 @@
+// Package vatomic mirrors sync/atomic: every operation is a scheduling point
+// followed by the real atomic operation.
 package vatomic
 
 import (
 	"sync/atomic"
+	"unsafe"
 
 	"verif.local/engine/vs"
 )
 
-func LoadInt32(p *int32) int32         { vs.Pt("aload"); return atomic.LoadInt32(p) }
-func StoreInt32(p *int32, v int32)     { vs.Pt("astore"); atomic.StoreInt32(p, v) }
-func AddInt32(p *int32, d int32) int32 { vs.Pt("aadd"); return atomic.AddInt32(p, d) }
+func LoadInt32(p *int32) int32          { vs.Pt("aload"); return atomic.LoadInt32(p) }
+func StoreInt32(p *int32, v int32)      { vs.Pt("astore"); atomic.StoreInt32(p, v) }
+func AddInt32(p *int32, d int32) int32  { vs.Pt("aadd"); return atomic.AddInt32(p, d) }
+func SwapInt32(p *int32, v int32) int32 { vs.Pt("aswap"); return atomic.SwapInt32(p, v) }
 func CompareAndSwapInt32(p *int32, o, n int32) bool {
 	vs.Pt("acas")
 	return atomic.CompareAndSwapInt32(p, o, n)
 }
-func LoadInt64(p *int64) int64         { vs.Pt("aload"); return atomic.LoadInt64(p) }
-func StoreInt64(p *int64, v int64)     { vs.Pt("astore"); atomic.StoreInt64(p, v) }
-func AddInt64(p *int64, d int64) int64 { vs.Pt("aadd"); return atomic.AddInt64(p, d) }
+
+type Int32 struct{ v atomic.Int32 }
+
+func (x *Int32) Load() int32                    { vs.Pt("aload"); return x.v.Load() }
+func (x *Int32) Store(v int32)                  { vs.Pt("astore"); x.v.Store(v) }
+func (x *Int32) Add(d int32) int32              { vs.Pt("aadd"); return x.v.Add(d) }
+func (x *Int32) Swap(v int32) int32             { vs.Pt("aswap"); return x.v.Swap(v) }
+func (x *Int32) CompareAndSwap(o, n int32) bool { vs.Pt("acas"); return x.v.CompareAndSwap(o, n) }
+func (x *Int32) And(m int32) int32              { vs.Pt("aand"); return x.v.And(m) }
+func (x *Int32) Or(m int32) int32               { vs.Pt("aor"); return x.v.Or(m) }
+
+func LoadInt64(p *int64) int64          { vs.Pt("aload"); return atomic.LoadInt64(p) }
+func StoreInt64(p *int64, v int64)      { vs.Pt("astore"); atomic.StoreInt64(p, v) }
+func AddInt64(p *int64, d int64) int64  { vs.Pt("aadd"); return atomic.AddInt64(p, d) }
+func SwapInt64(p *int64, v int64) int64 { vs.Pt("aswap"); return atomic.SwapInt64(p, v) }
 func CompareAndSwapInt64(p *int64, o, n int64) bool {
 	vs.Pt("acas")
 	return atomic.CompareAndSwapInt64(p, o, n)
+}
+
+type Int64 struct{ v atomic.Int64 }
+
+func (x *Int64) Load() int64                    { vs.Pt("aload"); return x.v.Load() }
+func (x *Int64) Store(v int64)                  { vs.Pt("astore"); x.v.Store(v) }
+func (x *Int64) Add(d int64) int64              { vs.Pt("aadd"); return x.v.Add(d) }
+func (x *Int64) Swap(v int64) int64             { vs.Pt("aswap"); return x.v.Swap(v) }
+func (x *Int64) CompareAndSwap(o, n int64) bool { vs.Pt("acas"); return x.v.CompareAndSwap(o, n) }
+func (x *Int64) And(m int64) int64              { vs.Pt("aand"); return x.v.And(m) }
+func (x *Int64) Or(m int64) int64               { vs.Pt("aor"); return x.v.Or(m) }
+
+func LoadUint32(p *uint32) uint32           { vs.Pt("aload"); return atomic.LoadUint32(p) }
+func StoreUint32(p *uint32, v uint32)       { vs.Pt("astore"); atomic.StoreUint32(p, v) }
+func AddUint32(p *uint32, d uint32) uint32  { vs.Pt("aadd"); return atomic.AddUint32(p, d) }
+func SwapUint32(p *uint32, v uint32) uint32 { vs.Pt("aswap"); return atomic.SwapUint32(p, v) }
+func CompareAndSwapUint32(p *uint32, o, n uint32) bool {
+	vs.Pt("acas")
+	return atomic.CompareAndSwapUint32(p, o, n)
+}
+
+type Uint32 struct{ v atomic.Uint32 }
+
+func (x *Uint32) Load() uint32                    { vs.Pt("aload"); return x.v.Load() }
+func (x *Uint32) Store(v uint32)                  { vs.Pt("astore"); x.v.Store(v) }
+func (x *Uint32) Add(d uint32) uint32             { vs.Pt("aadd"); return x.v.Add(d) }
+func (x *Uint32) Swap(v uint32) uint32            { vs.Pt("aswap"); return x.v.Swap(v) }
+func (x *Uint32) CompareAndSwap(o, n uint32) bool { vs.Pt("acas"); return x.v.CompareAndSwap(o, n) }
+func (x *Uint32) And(m uint32) uint32             { vs.Pt("aand"); return x.v.And(m) }
+func (x *Uint32) Or(m uint32) uint32              { vs.Pt("aor"); return x.v.Or(m) }
+
+func LoadUint64(p *uint64) uint64           { vs.Pt("aload"); return atomic.LoadUint64(p) }
+func StoreUint64(p *uint64, v uint64)       { vs.Pt("astore"); atomic.StoreUint64(p, v) }
+func AddUint64(p *uint64, d uint64) uint64  { vs.Pt("aadd"); return atomic.AddUint64(p, d) }
+func SwapUint64(p *uint64, v uint64) uint64 { vs.Pt("aswap"); return atomic.SwapUint64(p, v) }
+func CompareAndSwapUint64(p *uint64, o, n uint64) bool {
+	vs.Pt("acas")
+	return atomic.CompareAndSwapUint64(p, o, n)
+}
+
+type Uint64 struct{ v atomic.Uint64 }
+
+func (x *Uint64) Load() uint64                    { vs.Pt("aload"); return x.v.Load() }
+func (x *Uint64) Store(v uint64)                  { vs.Pt("astore"); x.v.Store(v) }
+func (x *Uint64) Add(d uint64) uint64             { vs.Pt("aadd"); return x.v.Add(d) }
+func (x *Uint64) Swap(v uint64) uint64            { vs.Pt("aswap"); return x.v.Swap(v) }
+func (x *Uint64) CompareAndSwap(o, n uint64) bool { vs.Pt("acas"); return x.v.CompareAndSwap(o, n) }
+func (x *Uint64) And(m uint64) uint64             { vs.Pt("aand"); return x.v.And(m) }
+func (x *Uint64) Or(m uint64) uint64              { vs.Pt("aor"); return x.v.Or(m) }
+
+func LoadUintptr(p *uintptr) uintptr            { vs.Pt("aload"); return atomic.LoadUintptr(p) }
+func StoreUintptr(p *uintptr, v uintptr)        { vs.Pt("astore"); atomic.StoreUintptr(p, v) }
+func AddUintptr(p *uintptr, d uintptr) uintptr  { vs.Pt("aadd"); return atomic.AddUintptr(p, d) }
+func SwapUintptr(p *uintptr, v uintptr) uintptr { vs.Pt("aswap"); return atomic.SwapUintptr(p, v) }
+func CompareAndSwapUintptr(p *uintptr, o, n uintptr) bool {
+	vs.Pt("acas")
+	return atomic.CompareAndSwapUintptr(p, o, n)
+}
+
+type Uintptr struct{ v atomic.Uintptr }
+
+func (x *Uintptr) Load() uintptr                    { vs.Pt("aload"); return x.v.Load() }
+func (x *Uintptr) Store(v uintptr)                  { vs.Pt("astore"); x.v.Store(v) }
+func (x *Uintptr) Add(d uintptr) uintptr            { vs.Pt("aadd"); return x.v.Add(d) }
+func (x *Uintptr) Swap(v uintptr) uintptr           { vs.Pt("aswap"); return x.v.Swap(v) }
+func (x *Uintptr) CompareAndSwap(o, n uintptr) bool { vs.Pt("acas"); return x.v.CompareAndSwap(o, n) }
+
+func LoadPointer(p *unsafe.Pointer) unsafe.Pointer     { vs.Pt("aload"); return atomic.LoadPointer(p) }
+func StorePointer(p *unsafe.Pointer, v unsafe.Pointer) { vs.Pt("astore"); atomic.StorePointer(p, v) }
+func SwapPointer(p *unsafe.Pointer, v unsafe.Pointer) unsafe.Pointer {
+	vs.Pt("aswap")
+	return atomic.SwapPointer(p, v)
+}
+func CompareAndSwapPointer(p *unsafe.Pointer, o, n unsafe.Pointer) bool {
+	vs.Pt("acas")
+	return atomic.CompareAndSwapPointer(p, o, n)
 }
 
 type Bool struct{ v atomic.Bool }
@@ -28,17 +120,16 @@ func (b *Bool) Store(x bool)                  { vs.Pt("astore"); b.v.Store(x) }
 func (b *Bool) Swap(x bool) bool              { vs.Pt("aswap"); return b.v.Swap(x) }
 func (b *Bool) CompareAndSwap(o, n bool) bool { vs.Pt("acas"); return b.v.CompareAndSwap(o, n) }
 
-type Int32 struct{ v atomic.Int32 }
+type Pointer[T any] struct{ v atomic.Pointer[T] }
 
-func (b *Int32) Load() int32       { vs.Pt("aload"); return b.v.Load() }
-func (b *Int32) Store(x int32)     { vs.Pt("astore"); b.v.Store(x) }
-func (b *Int32) Add(d int32) int32 { vs.Pt("aadd"); return b.v.Add(d) }
+func (p *Pointer[T]) Load() *T                    { vs.Pt("aload"); return p.v.Load() }
+func (p *Pointer[T]) Store(x *T)                  { vs.Pt("astore"); p.v.Store(x) }
+func (p *Pointer[T]) Swap(x *T) *T                { vs.Pt("aswap"); return p.v.Swap(x) }
+func (p *Pointer[T]) CompareAndSwap(o, n *T) bool { vs.Pt("acas"); return p.v.CompareAndSwap(o, n) }
 
-type Int64 struct{ v atomic.Int64 }
+type Value struct{ v atomic.Value }
 
-func (b *Int64) Load() int64       { vs.Pt("aload"); return b.v.Load() }
-func (b *Int64) Store(x int64)     { vs.Pt("astore"); b.v.Store(x) }
-func (b *Int64) Add(d int64) int64 { vs.Pt("aadd"); return b.v.Add(d) }
-
-type Value = atomic.Value
-type Pointer[T any] = atomic.Pointer[T]
+func (x *Value) Load() any                    { vs.Pt("aload"); return x.v.Load() }
+func (x *Value) Store(v any)                  { vs.Pt("astore"); x.v.Store(v) }
+func (x *Value) Swap(v any) any               { vs.Pt("aswap"); return x.v.Swap(v) }
+func (x *Value) CompareAndSwap(o, n any) bool { vs.Pt("acas"); return x.v.CompareAndSwap(o, n) }
